@@ -384,7 +384,12 @@ func (a *pwaligner) backTrack_SW() {
 			ngaps = 0
 			for {
 				ngaps++
-				gapscore = a.matrix[i-ngaps][j] + a.gapopen + float64(ngaps-1)*a.gapextend
+				// Same additions, in the same order, as in fillMatrix_SW:
+				// the comparison below is then exact for any gap penalty
+				gapscore = a.matrix[i-ngaps][j] + a.gapopen
+				for g := 1; g < ngaps; g++ {
+					gapscore += a.gapextend
+				}
 				if gapscore == a.matrix[i][j] || i-ngaps == 0 {
 					break
 				}
@@ -414,7 +419,10 @@ func (a *pwaligner) backTrack_SW() {
 			ngaps = 0
 			for {
 				ngaps++
-				gapscore = a.matrix[i][j-ngaps] + a.gapopen + float64(ngaps-1)*a.gapextend
+				gapscore = a.matrix[i][j-ngaps] + a.gapopen
+				for g := 1; g < ngaps; g++ {
+					gapscore += a.gapextend
+				}
 				if gapscore == a.matrix[i][j] || j-ngaps == 0 {
 					break
 				}
